@@ -35,6 +35,15 @@ class Render:
         t = TextWidget(s); t.render(width)
         return "\n".join(t.get_lines()) + " "
 
+def _join(t, timeout):
+    """join a reader thread; a thread that is listed but not started yet (it sits between start() and its bootstrap) is waited for briefly instead"""
+    for _ in range(200):
+        try:
+            t.join(timeout); return
+        except RuntimeError:
+            time.sleep(0.001)
+
+
 class Session:
     def __init__(self, lines):
         self.lines = list(lines); self.gate = threading.Semaphore(0); self.waiting = 0; self.lock = threading.Lock(); self.dead = False
@@ -84,7 +93,7 @@ class Log(list):
             if SESS is not None and SESS.waiting > 0 and not SESS.dead:
                 ths = [t for t in threading.enumerate() if t.name == "SimplelineInputThread"]
                 SESS.gate.release()
-                for t in ths: t.join(5)
+                for t in ths: _join(t, 5)
 LOG = Log()
 
 def fake_input():
@@ -106,7 +115,7 @@ def _get(self, block=True, timeout=None):
                 if SESS.waiting > 0: break
                 time.sleep(0.0005)
             SESS.gate.release()
-            for t in ths: t.join(5)
+            for t in ths: _join(t, 5)
         if self.empty(): raise Blocked()
     return _orig_get(self, block, timeout)
 queue.Queue.get = _get
@@ -117,7 +126,7 @@ def deliver_hook():
         if SESS.waiting > 0: break
         time.sleep(0.0005)
     SESS.gate.release()
-    for t in ths: t.join(5)
+    for t in ths: _join(t, 5)
     return True
 
 # wait until the reader printed its prompt (the machine prints it at request time)
@@ -316,7 +325,7 @@ def run_real(case, loopkind="main"):
         snapshot = list(LOG)
         # release any reader still waiting so threads do not pile up
         for t in [t for t in threading.enumerate() if t.name == "SimplelineInputThread"]:
-            SESS.dead = True; SESS.gate.release(); t.join(2)
+            SESS.dead = True; SESS.gate.release(); _join(t, 2)
     run_real.xlog = [list(x) for x in XLOG]; run_real.stderr = err.getvalue()
     return outcome, snapshot, out.getvalue()
 
@@ -371,6 +380,6 @@ def run_inputs(case):
     finally:
         sys.stdout, sys.stderr = old; OUTBUF[0] = None
         for t in [t for t in threading.enumerate() if t.name == "SimplelineInputThread"]:
-            SESS.dead = True; SESS.gate.release(); t.join(2)
+            SESS.dead = True; SESS.gate.release(); _join(t, 2)
     state = {str(i): {"value": h.value, "received": h.input_received(), "successful": h.input_successful(), "callbacks": calls[i]} for i, h in handlers.items()}
     return {"events": events, "handlers": state, "reads": [e[1] for e in LOG if e[0] == "read"], "out": out.getvalue()}
